@@ -158,4 +158,11 @@ class RngAnalysis:
                 return isinstance(v, int) and not isinstance(v, bool)
             except KeyError:
                 return False
+        if isinstance(e, ast.BinOp) and isinstance(e.op, (ast.Add, ast.Sub, ast.Mult, ast.FloorDiv, ast.Mod, ast.Pow, ast.LShift, ast.BitOr,
+                                                          ast.BitXor, ast.BitAnd)):
+            return self._const_int(fi, e.left) and self._const_int(fi, e.right)
+        if isinstance(e, ast.UnaryOp) and isinstance(e.op, (ast.UAdd, ast.USub)):
+            return self._const_int(fi, e.operand)
+        if isinstance(e, ast.Call) and isinstance(e.func, ast.Name) and e.func.id == "int" and len(e.args) == 1 and not e.keywords:
+            return self._const_int(fi, e.args[0])
         return False
